@@ -227,7 +227,12 @@ class LockSemantics(object):
             for j in range(1, self.npaths):
                 cur = z3.If(a['fp'][i] == j, a['path'][j], cur)
             same = cur == a['fd'][i]
-            pre.append(same if outcome == 'same' else z3.Not(same))
+            if outcome == 'same':
+                pre.append(same)
+            elif outcome == 'gone':       # os.stat raises: the path is not bound to any inode
+                pre.append(cur == 0)
+            else:                         # bound to a different inode
+                pre.append(z3.And(cur != 0, z3.Not(same)))
         elif name == 'close':
             upd['h'] = z3.BoolVal(False)
             upd['fd'] = self.N(-1)
